@@ -1,4 +1,5 @@
 import CogentModel.Model.PhyloTree
+import CogentModel.Model.PhyloNewick
 /-
   C09 — character-level model of the newick writer's name escaping (`TreeNode.get_newick`,
   escape_name=True) and of `parse/newick.py::_Tokeniser.tokens` (underscore_unmunge=True,
@@ -49,6 +50,24 @@ def printTail {K : Type} : List (PTree K) → List Char
 end
 
 def newickStr {K : Type} (t : PTree K) : List Char := printStr t ++ [';']
+
+/- `get_newick(with_distances=True)`: `result[-1] = f"{result[-1]}:{length}"` after the name;
+   `sh` stands for Python's `str(float)` -/
+def lenStr {K : Type} (sh : K → List Char) : Option K → List Char
+  | some k => ':' :: sh k
+  | none => []
+
+mutual
+def printStrW {K : Type} (sh : K → List Char) : PTree K → List Char
+  | .node n l [] => (if n = "" then [] else escapeName n.toList) ++ lenStr sh l
+  | .node n l (c :: cs) =>
+    '(' :: (printStrW sh c ++ printTailW sh cs) ++ ((if n = "" then [] else escapeName n.toList) ++ lenStr sh l)
+def printTailW {K : Type} (sh : K → List Char) : List (PTree K) → List Char
+  | [] => [')']
+  | c :: cs => ',' :: (printStrW sh c ++ printTailW sh cs)
+end
+
+def newickStrW {K : Type} (sh : K → List Char) (t : PTree K) : List Char := printStrW sh t ++ [';']
 
 /-! ### stage 1: the regular-expression split -/
 inductive Raw where
@@ -209,5 +228,67 @@ def mRun : MSt → List Raw → Option (List STok)
 
 /-- `list(_Tokeniser(text, underscore_unmunge=True).tokens())` without the final EOT -/
 def tokenise (cs : List Char) : Option (List STok) := mRun {} (lex cs)
+
+/-! ### from the tokeniser's strings to `parse_string`'s tokens
+
+`parse_string` compares each token with the punctuation strings and converts the token after
+`:` with `float` (`rd`); every other label is a name. -/
+def punTok {K : Type} (c : Char) : Option (Tok K) :=
+  if c = '(' then some .lp else if c = ')' then some .rp else if c = ',' then some .comma
+  else if c = ':' then some .colon else if c = ';' then some .semi else none
+
+def retok {K : Type} (rd : List Char → Option K) : Bool → List STok → Option (List (Tok K))
+  | _, [] => some []
+  | true, .lab s :: rest =>
+    match rd s with
+    | none => none
+    | some k => (retok rd false rest).map (Tok.num k :: ·)
+  | true, .pun _ :: _ => none
+  | false, .lab s :: rest => (retok rd false rest).map (Tok.label (String.ofList s) :: ·)
+  | false, .pun c :: rest =>
+    match punTok (K := K) c with
+    | none => none
+    | some t => (retok rd (c == ':') rest).map (t :: ·)
+
+/-- the tokens produced before the tokeniser raises (`false`) or reaches the end of the text -/
+def mRunP : MSt → List Raw → List STok × Bool
+  | σ, [] =>
+    match mEnd σ with
+    | some o => (o, true)
+    | none => ([], false)
+  | σ, r :: rs =>
+    match mStep σ r with
+    | none => ([], false)
+    | some (σ', o) => let p := mRunP σ' rs; (o ++ p.1, p.2)
+
+def tokeniseP (cs : List Char) : List STok × Bool := mRunP {} (lex cs)
+
+/-- `parse_string` consumes the token generator lazily: it stops at the first top-level `;`, so a
+later tokeniser error is never seen.  `ok = false`: the generator raises after these tokens. -/
+def plazy {K : Type} (rd : List Char → Option K) : PState K → Bool → List STok → Bool → Option (PTree K)
+  | σ, _, [], ok =>
+    if ok then (match pstep σ none with
+      | .done t => some t
+      | _ => none)
+    else none
+  | σ, ac, tok :: ts, ok =>
+    let conv : Option (Tok K × Bool) :=
+      match ac, tok with
+      | true, .lab s => (rd s).map fun k => (Tok.num k, false)
+      | true, .pun _ => none
+      | false, .lab s => some (Tok.label (String.ofList s), false)
+      | false, .pun c => (punTok (K := K) c).map fun t => (t, c == ':')
+    match conv with
+    | none => none
+    | some (t, ac') =>
+      match pstep σ (some t) with
+      | .cont σ' => plazy rd σ' ac' ts ok
+      | .done r => some r
+      | .err => none
+
+/-- `parse_string(text)` on characters (after its "Not a Newick tree" guard) -/
+def parseString {K : Type} (rd : List Char → Option K) (cs : List Char) : Option (PTree K) :=
+  let p := tokeniseP cs
+  plazy rd {} false p.1 p.2
 
 end CogentModel.Phylo
